@@ -226,10 +226,89 @@ func (r *replicator) Load(ctx context.Context, entries []ipfslog.Entry) {
 	// everything this request asked for has been fetched or given up: hand
 	// over what is buffered now. Waiting for the whole replicator to be idle
 	// would let one fetch that never completes (a head naming a block nobody
-	// holds) keep every other fetched entry out of the store for ever
+	// holds) keep every other fetched entry out of the store for ever. While
+	// other requests are still fetching, only the logs whose ancestry is
+	// complete are handed over: the store never sees (and never persists) an
+	// entry before its parents because two requests overlapped
 	r.muProcess.Lock()
-	r.idle()
+	if r.isIdle() {
+		r.idle()
+	} else {
+		r.handOverComplete()
+	}
 	r.muProcess.Unlock()
+}
+
+// handOverComplete hands over the buffered logs whose entries have all their
+// parents either in the store's log or in a buffered log that is handed over
+// too; the others stay buffered until their ancestry arrives or the
+// replicator is idle. It is not thread safe
+func (r *replicator) handOverComplete() {
+	r.muBuffer.Lock()
+	defer r.muBuffer.Unlock()
+
+	oplog := r.store.OpLog()
+
+	keep := make([]bool, len(r.buffer))
+	for i := range keep {
+		keep[i] = true
+	}
+
+	for changed := true; changed; {
+		changed = false
+
+		known := map[string]struct{}{}
+		for i, l := range r.buffer {
+			if !keep[i] {
+				continue
+			}
+
+			for _, e := range l.GetEntries().Slice() {
+				known[e.GetHash().String()] = struct{}{}
+			}
+		}
+
+		for i, l := range r.buffer {
+			if !keep[i] {
+				continue
+			}
+
+			for _, e := range l.GetEntries().Slice() {
+				for _, parent := range e.GetNext() {
+					if _, ok := known[parent.String()]; ok {
+						continue
+					}
+
+					if _, ok := oplog.Get(parent); ok {
+						continue
+					}
+
+					keep[i] = false
+					changed = true
+				}
+			}
+		}
+	}
+
+	var complete, rest []ipfslog.Log
+	for i, l := range r.buffer {
+		if keep[i] {
+			complete = append(complete, l)
+		} else {
+			rest = append(rest, l)
+		}
+	}
+
+	if len(complete) == 0 {
+		return
+	}
+
+	verifhook.Emitting(r.eventBus)
+	if err := r.emitters.evtLoadEnd.Emit(NewEventLoadEnd(complete)); err != nil {
+		r.logger.Warn("unable to emit event load end", zap.Error(err))
+	}
+
+	r.buffer = rest
 }
 
 // processOne wait for a process slot then process the given element of the queue
